@@ -72,11 +72,13 @@ class MixedUnitaryChannel(raw_types.Gate):
             return NotImplemented
         if self._key != other._key:
             return False
+        if len(self._mixture) != len(other._mixture):
+            return False
         if not np.allclose([m[0] for m in self._mixture], [m[0] for m in other._mixture]):
             return False
-        return np.allclose(
-            np.asarray([m[1] for m in self._mixture]), np.asarray([m[1] for m in other._mixture])
-        )
+        mine = np.asarray([m[1] for m in self._mixture])
+        theirs = np.asarray([m[1] for m in other._mixture])
+        return mine.shape == theirs.shape and np.allclose(mine, theirs)
 
     def num_qubits(self) -> int:
         return self._num_qubits
